@@ -282,6 +282,14 @@ int tokens_get(AsmContext *asm_context, char *token, int len)
 #ifdef DEBUG
 //printf("debug> tokens_get, grabbing next char ptr=%d\n", ptr);
 #endif
+    // One pass of this loop appends at most two characters.
+    if (ptr >= len - 2)
+    {
+      print_error(asm_context, "Token too long");
+      asm_context->error_count++;
+      break;
+    }
+
     ch = tokens_get_char(asm_context);
 #ifdef DEBUG
 //printf("debug> getc()='%c'  ptr=%d  token='%s'\n", ch, ptr, token);
